@@ -508,6 +508,15 @@ theorem prefix_durable {S C : Type} (apply : S → C → S) (s0 : S) (evs : List
   have := Lemmas.crash_safe apply s0 (init s0) evs d (Lemmas.init_inv apply s0) hc
   simpa [Lemmas.CrashSafe, init, crashImage] using this
 
+/-- The sync is an explicit micro-step of the model and `prefix_durable` depends on it: with the
+order of seeded change C05-d (a flush-path commit on an empty cache skips `syncBlocks` before the
+transaction's rows are written to leveldb) the metadata contains a commit whose block data was never
+synced, i.e. the invariant `nDisk ≤ nSynced` that `prefix_durable` establishes is violated. -/
+theorem sync_before_metadata_is_necessary {S C : Type} (apply : S → C → S) (s0 : S) (c : C) :
+    let d := runMicros apply (init s0) [Micro.writeBlocks, Micro.flushMeta, Micro.directCommit c]
+    ¬ d.nDisk ≤ d.nSynced := by
+  simp [runMicros, microStep, init]
+
 example : CrashAt (fun (s : Nat) (c : Nat) => s + c) (init 0) [DEvent.commit 5 false, DEvent.flush]
     (runMicros (fun s c => s + c) (init 0) ((stepsOf (DEvent.commit 5 false)).take 1)) :=
   CrashAt.inEvent _ _ _ 1
